@@ -82,6 +82,10 @@ def fam_ops(tier):
                 "PEEK", "POP", "DROP", "PEEK_ALL", "POP_ALL", "PUSH(\"a\") ~ PEEK", "PUSH(\"a\") ~ POP ~ \"b\"", "PUSH(ANY) ~ PUSH(ANY) ~ POP_ALL",
                 "PUSH(\"a\") ~ PUSH(\"b\") ~ PEEK_ALL", "PUSH(\"a\"+) ~ \"b\" ~ POP", "PUSH(ANY) ~ PEEK[0..1] ~ PEEK[-1..]", "PUSH(\"a\") ~ DROP ~ PEEK?"]
     bodies += builtins
+    # user rules may shadow built-ins that are not pest keywords
+    shadow = dict(id="osh", text="\n".join([rule("ASCII_DIGIT", '"a"'), rule("NEWLINE", '"b" ~ "a"?', "atomic"), rule("LETTER", '"b"', "silent"), rule("WHITE_SPACE", '" "'),
+                                            rule("r0", "ASCII_DIGIT ~ NEWLINE"), rule("r1", "(LETTER | ASCII_DIGIT)* ~ ASCII_ALPHA?"), rule("r2", "ASCII_DIGIT{2} ~ !NEWLINE ~ ANY", "compound"),
+                                            rule("r3", "WHITE_SPACE* ~ LETTER+ ~ EOI"), 'WHITESPACE = _{ WHITE_SPACE }']), alphabet=cps("ab 1\n"), maxlen=3 if tier == "quick" else 4)
     hdr_x = rule("x", '"a" ~ "b"?') + "\n" + rule("nx", '"a"+ ~ "b"*', "nonatomic")
     plain = filter_valid(bodies, hdr_x, "ops_f1")
     withws = filter_valid(bodies, hdr_x + "\n" + WS_SP + "\n" + CM_HASH, "ops_f2")
@@ -97,6 +101,7 @@ def fam_ops(tier):
     out = pack("op", rules, 8, header=hdr_x, alphabet=cps("abA"), maxlen=3 if tier == "quick" else 4)
     rules2 = [(b, kinds[i % 5] if i % 2 == 0 else "normal") for i, b in enumerate(withws)]
     out += pack("ow", rules2, 8, header=hdr_x + "\n" + WS_SP + "\n" + CM_HASH, alphabet=cps("ab #"), maxlen=3 if tier == "quick" else 4)
+    out.append(shadow)
     return out
 
 
